@@ -9,6 +9,7 @@ package table
 
 import (
 	"container/list"
+	"sync"
 	"time"
 
 	enc "github.com/named-data/ndnd/std/encoding"
@@ -17,6 +18,10 @@ import (
 // RibTable represents the Routing Information Base (RIB).
 type RibTable struct {
 	RibEntry
+
+	// mutex synchronizes accesses to the RIB, which is updated by the
+	// management thread and by face goroutines (clean-up of a destroyed face).
+	mutex sync.RWMutex
 }
 
 // RibEntry represents an entry in the RIB table.
@@ -165,6 +170,9 @@ func (r *RibEntry) updateNexthopsEnc() {
 
 // AddRoute adds or updates a RIB entry for the specified prefix.
 func (r *RibTable) AddEncRoute(name enc.Name, route *Route) {
+	r.mutex.Lock()
+	defer r.mutex.Unlock()
+
 	name = name.Clone()
 	node := r.fillTreeToPrefixEnc(name)
 	if node.Name == nil {
@@ -188,6 +196,9 @@ func (r *RibTable) AddEncRoute(name enc.Name, route *Route) {
 
 // GetAllEntries returns all routes in the RIB.
 func (r *RibTable) GetAllEntries() []*RibEntry {
+	r.mutex.RLock()
+	defer r.mutex.RUnlock()
+
 	entries := make([]*RibEntry, 0)
 	// Walk tree in-order
 	queue := list.New()
@@ -215,6 +226,9 @@ func (r *RibEntry) GetRoutes() []*Route {
 
 // RemoveRoute removes the specified route from the specified prefix.
 func (r *RibTable) RemoveRouteEnc(name enc.Name, faceID uint64, origin uint64) {
+	r.mutex.Lock()
+	defer r.mutex.Unlock()
+
 	entry := r.findExactMatchEntryEnc(name)
 	if entry != nil {
 		for i, route := range entry.routes {
@@ -233,10 +247,17 @@ func (r *RibTable) RemoveRouteEnc(name enc.Name, faceID uint64, origin uint64) {
 }
 
 // CleanUpFace removes the specified face from all entries. Used for clean-up after a face is destroyed.
-func (r *RibEntry) CleanUpFace(faceId uint64) {
+func (r *RibTable) CleanUpFace(faceId uint64) {
+	r.mutex.Lock()
+	defer r.mutex.Unlock()
+
+	r.RibEntry.cleanUpFace(faceId)
+}
+
+func (r *RibEntry) cleanUpFace(faceId uint64) {
 	// Recursively clean children
 	for child := range r.children {
-		child.CleanUpFace(faceId)
+		child.cleanUpFace(faceId)
 	}
 
 	if r.Name == nil {
